@@ -209,4 +209,47 @@ def groupNorm (add sub mul div : α → α → α) (sqabs sqrt : α → α) (div
   (bin mul nr w').bind fun p =>
   bin add p b'
 
+/-! ### bilinear -/
+
+/-- `index::bilinear_input_reshape(shape)` for a resizable result: rank ≤ 2 unchanged; rank > 2: one unit axis inserted
+    right after the FIRST axis (`[0] = shape[0]`, ones, then `result[i] = shape[i−1]` for `i ≥ 2`).
+    (For rank > 3 this is the defect bilinear.lead-axes: the unit axis belongs right before the last two axes —
+    fixes/C17-bilinear-lead-axes.diff; both agree up to rank 3.)  `none`: rank 0 (`at(shape, 0)` out of range). -/
+def bilinearInputReshape (s : Shape) : Option Shape :=
+  match s with
+  | [] => none
+  | s0 :: rest => some (if 2 < rest.length + 1 then s0 :: 1 :: rest else s0 :: rest)
+
+/-- the repaired form: the unit axis right before the last two axes -/
+def bilinearInputReshapeFixed (s : Shape) : Option Shape :=
+  match s with
+  | [] => none
+  | _ => some (if 2 < s.length then s.take (s.length - 2) ++ 1 :: s.drop (s.length - 2) else s)
+
+/-- `index::bilinear_result_transpose(dim)`: the identity permutation with the last two axes swapped (`dim ≥ 2`) -/
+def bilinearResultTranspose (n : Nat) : List Nat :=
+  if 2 ≤ n then List.range (n - 2) ++ [n - 1, n - 2] else List.range n
+
+/-- `view::matmulv2(a, b)` with data: the C16 term lists folded from the first product -/
+def matmulVal (add mul : α → α → α) (a b : Arr α) : Option (OArr α) :=
+  (Linalg.matmulV2 a.shape b.shape).map fun t =>
+    ⟨t.shape, fun d => foldFirst add none ((t.get d).map fun tm => mul (a.get tm.1) (b.get tm.2))⟩
+
+/-- `view::bilinear(lhs, rhs, weight, bias)`:
+    `a = matmulv2(reshape(lhs, bilinear_input_reshape(shape lhs)), weight)`,
+    `b = multiply(a, reshape(rhs, bilinear_input_reshape(shape rhs)))`, `c = sum(b, −1)`,
+    `d = transpose(c, bilinear_result_transpose(dim c))`, `add(d, bias)` when a bias is given -/
+def bilinear (add mul : α → α → α) (x y w : Arr α) (bias : Option (Arr α)) : Option (OArr α) :=
+  (bilinearInputReshape x.shape).bind fun xs =>
+  (bilinearInputReshape y.shape).bind fun ys =>
+  (Linalg.reshape x xs).bind fun x' =>
+  (Linalg.reshape y ys).bind fun y' =>
+  (matmulVal add mul x' w).bind fun a =>
+  (bin mul a (lift y')).bind fun b =>
+  (red add b (some [-1]) false).bind fun c =>
+  (Linalg.transpose c (bilinearResultTranspose c.shape.length)).bind fun d =>
+    match bias with
+    | none => some d
+    | some bb => bin add d (lift bb)
+
 end NmVerif.NN
